@@ -16,6 +16,16 @@ def touchesEnd (o : Orient) (n b e : Nat) : Bool :=
   | .plus => e == n
   | .minus => b == 0
 
+/-- An interval written according to the specification (`$` exactly at the segment end). -/
+structure ValidIv (n b e : Nat) : Prop where
+  le : b ≤ e
+  bound : e ≤ n
+  pos : 0 < n
+
+/-- kind of an interval from what it touches -/
+def kindOf (n b e : Nat) : SubT :=
+  if b = 0 then (if e = n then .whole else .pfx) else (if e = n then .sfx else .internal)
+
 def isWhole (n b e : Nat) : Bool := b == 0 && e == n
 
 /-- dovetail: neither interval is a whole segment and an oriented suffix of one meets an oriented
